@@ -735,6 +735,7 @@ func (it *Interp) mapGet(m *MapV, key Value, kt types.Type) (Value, bool) {
 	if m == nil {
 		return nil, false
 	}
+	it.raceMap(m, false)
 	i := it.mapFind(m, key, kt)
 	if i < 0 {
 		return nil, false
@@ -744,6 +745,7 @@ func (it *Interp) mapGet(m *MapV, key Value, kt types.Type) (Value, bool) {
 
 func (it *Interp) mapSet(m *MapV, key, val Value) {
 	kt := m.T.Key()
+	it.raceMap(m, true)
 	i := it.mapFind(m, key, kt)
 	if i >= 0 {
 		old := m.Entries[i].V
@@ -768,6 +770,7 @@ func (it *Interp) mapDelete(m *MapV, key Value) {
 	if m == nil {
 		return
 	}
+	it.raceMap(m, true)
 	i := it.mapFind(m, key, m.T.Key())
 	if i < 0 {
 		return
@@ -793,6 +796,7 @@ func (it *Interp) mapLen(m *MapV) int {
 	if m == nil {
 		return 0
 	}
+	it.raceMap(m, false)
 	n := 0
 	for _, e := range m.Entries {
 		if !e.Del {
